@@ -7,7 +7,7 @@ from orquestra.quantum.utils import scale_and_discretize
 from orquestra.quantum.measurements import Measurements
 from orquestra.quantum.distributions import MeasurementOutcomeDistribution
 
-H = Harness("C13", ["OQ.Base.CaseEq", "OQ.Stats.Shots", "OQ.Stats.ShotsCases"],
+H = Harness("C13", ["OQ.Base.CaseEq", "OQ.Stats.Shots", "OQ.Stats.ShotsCases", "OQ.Stats.Represent"],
             "kinds: expand (incl. counts up to 2^70 near divisibility boundaries, max=1), combine_bitstrings / "
             "combine_measurement_counts (valid and mismatched multiplicities), split_into_batches (valid, wrong length, "
             "non-positive size), scale_and_discretize (integer weights with power-of-two sum: exact; float weights: laws "
@@ -61,10 +61,10 @@ def gen(rng, tier):
                 ws.append(0)
                 rng.shuffle(ws)
             yield dict(kind="scale", ws=ws, T=rng.randint(0, 300))
-        elif r < 0.9:
+        elif r < 0.88:
             ws = [rng.uniform(0.01, 10) for _ in range(rng.randint(1, 7))]
             yield dict(kind="scale_float", ws=ws, T=rng.randint(0, 500))
-        elif r < 0.93:
+        elif r < 0.94:
             # many outcomes, few shots: rounding overshoots and the elimination loop has to resample
             w = rng.randint(3, 5)
             keys = list(range(2 ** w))
@@ -75,7 +75,7 @@ def gen(rng, tier):
             ps = [base + rng.randint(-base // 8, base // 8) for _ in keys]
             ps[-1] += S - sum(ps)
             yield dict(kind="represent", width=w, keys=keys, ps=ps, S=S, N=rng.randint(max(1, len(keys) // 2), len(keys) + 2), npseed=rng.randint(0, 2 ** 31))
-        elif r < 0.96:
+        elif r < 0.97:
             w = rng.randint(1, 3)
             keys = rng.sample(range(2 ** w), rng.randint(1, 2 ** w))
             e = rng.randint(1, 6)
@@ -188,18 +188,37 @@ def run_case(inp):
             chk = f"scale_eqb {lz(ws)} {cz(T)} {clist(order, cnat)} {lz(out)} && order_sorted {lz(ws)} {cz(T)} {clist(order, cnat)}"
         return dict(chk=chk, oracle_ok=ok, oracle_msg=msg, kind=kind, nontrivial=len(ws) >= 2)
     if kind == "represent":
+        import collections
+        import orquestra.quantum.measurements.measurements as mm
         w = inp["width"]
-        d = {tuple(int(b) for b in format(k, f"0{w}b")): p / inp["S"] for k, p in zip(inp["keys"], inp["ps"])}
+        keys = [tuple(int(b) for b in format(k, f"0{w}b")) for k in inp["keys"]]
+        d = {k: p / inp["S"] for k, p in zip(keys, inp["ps"])}
+        pos = {k: i for i, k in enumerate(keys)}
+        draws = []
+        orig = mm.sample_from_probability_distribution
+        def recording(dist, n):
+            res = orig(dist, n)
+            draws.append([(pos[tuple(int(x) for x in key)], int(cnt)) for key, cnt in res.items()])
+            return res
         np.random.seed(inp["npseed"])
-        st, out = outcome(lambda: Measurements.get_measurements_representing_distribution(
-            MeasurementOutcomeDistribution(d), inp["N"]), timeout=20)
+        mm.sample_from_probability_distribution = recording
+        try:
+            st, out = outcome(lambda: Measurements.get_measurements_representing_distribution(
+                MeasurementOutcomeDistribution(d), inp["N"]), timeout=20)
+        finally:
+            mm.sample_from_probability_distribution = orig
         if st != "ok":
-            return dict(chk=None, oracle_ok=False, oracle_msg=f"raised {out}", kind=kind)
+            return dict(chk="false", oracle_ok=False, oracle_msg=f"raised {out}", kind=kind)
         bs = out.bitstrings
         support = {k for k, p in d.items() if p > 0}
         ok = len(bs) == inp["N"] and all(tuple(b) in support for b in bs)
-        return dict(chk=None, oracle_ok=ok, oracle_msg="" if ok else f"{len(bs)} shots for N={inp['N']}, off-support: {[b for b in bs if tuple(b) not in support][:3]}",
-                    kind=kind + ("-sparse" if inp["N"] <= len(d) + 2 and len(d) >= 4 else ""), nontrivial=len(d) >= 2)
+        cnt = collections.Counter(tuple(b) for b in bs)
+        res = [cnt.get(k, 0) for k in keys]
+        cd = clist(draws, lambda dr: clist(dr, lambda kv: cpair(cnat(kv[0]), cz(kv[1]))))
+        chk = f"represent_eqb {lz(inp['ps'])} {cz(inp['N'])} {cd} {lz(res)}"
+        branch = "exact" if not draws else ("add" if sum(int(round(p / inp['S'] * inp['N'])) for p in inp['ps']) < inp["N"] else f"eliminate-{len(draws)}")
+        return dict(chk=chk, oracle_ok=ok, oracle_msg="" if ok else f"{len(bs)} shots for N={inp['N']}, off-support: {[b for b in bs if tuple(b) not in support][:3]}",
+                    kind=kind + "-" + branch + ("-sparse" if inp["N"] <= len(d) + 2 and len(d) >= 4 else ""), nontrivial=len(d) >= 2)
     if kind == "pipeline":
         ns, m = inp["ns"], inp["m"]
         cs = list(range(len(ns)))
